@@ -650,13 +650,89 @@ fn dup_generation(rng: &mut Rng, img: &mut Vec<u8>, version: u32, now: u64) -> b
     true
 }
 
+/// A newer single-block generation of a key BELOW its multi-block generation (what a crash between
+/// a shrinking replacement's commit and the old extent's retirement leaves when the new record
+/// went into a hole further down).  The old generation's tail blocks are given contents that look
+/// like block heads - another record stamped for that very block (under a key nobody wrote), a
+/// retirement marker, the record's own head - and its token is re-stamped over the whole extent:
+/// it is a valid record, it loses by timestamp, and the scan has to step over ALL of its blocks.
+fn dup_generation_below_multi(rng: &mut Rng, img: &mut Vec<u8>, version: u32, now: u64) -> bool {
+    let blocks = img.len() / BS;
+    let hdr = if version >= 2 { 30 } else { 22 };
+    let geometry = |img: &Vec<u8>, b: usize| -> Option<(usize, usize)> {
+        let o = b * BS;
+        if !(img[o] == 0xCD && img[o + 1] == 0xAB) { return None; }
+        let kl = u16::from_le_bytes([img[o + 4], img[o + 5]]) as usize;
+        if 6 + kl + 24 > BS { return None; }
+        let vl = u64::from_le_bytes(img[o + 6 + kl..o + 14 + kl].try_into().unwrap()) as usize;
+        if vl == 0 || vl > (1 << 22) { return None; }
+        Some((kl, (hdr + kl + vl).div_ceil(BS)))
+    };
+    let multi: Vec<(usize, usize, usize)> = (16..blocks).filter_map(|b| geometry(img, b).filter(|(_, n)| *n >= 2 && b + n <= blocks).map(|(kl, n)| (b, kl, n))).collect();
+    let singles: Vec<usize> = (16..blocks).filter(|b| geometry(img, *b).map(|(_, n)| n == 1).unwrap_or(false)).collect();
+    if multi.is_empty() { return false; }
+    let (mut h, kl, n) = *rng.pick(&multi);
+    let below: Vec<usize> = (16..h).filter(|b| all_zero(&img[b * BS..b * BS + BS])).collect();
+    let f = if !below.is_empty() && rng.chance(1, 2) { *rng.pick(&below) } else {
+        // no hole below (or not this time): the old extent moves up into a free run, the newer generation takes its place
+        let runs: Vec<usize> = (h + n..blocks.saturating_sub(n - 1)).filter(|u| (*u..*u + n).all(|b| all_zero(&img[b * BS..b * BS + BS]))).collect();
+        if runs.is_empty() { return false; }
+        let u = *rng.pick(&runs);
+        let ext = img[h * BS..(h + n) * BS].to_vec();
+        img[u * BS..(u + n) * BS].copy_from_slice(&ext);
+        for x in &mut img[h * BS..(h + n) * BS] { *x = 0; }
+        let at = h;
+        h = u;
+        at
+    };
+    let head = img[h * BS..h * BS + BS].to_vec();
+    // the newer generation: one block
+    let o = f * BS;
+    img[o..o + BS].copy_from_slice(&head);
+    let room = BS - hdr - kl;
+    if room < 2 { for x in &mut img[o..o + BS] { *x = 0; } return false; }
+    let nvl = rng.range(1, (room as u64).min(300));
+    img[o + 6 + kl..o + 14 + kl].copy_from_slice(&nvl.to_le_bytes());
+    let ts = u64::from_le_bytes(head[14 + kl..22 + kl].try_into().unwrap());
+    img[o + 14 + kl..o + 22 + kl].copy_from_slice(&ts.saturating_add(rng.range(1, 9)).to_le_bytes());
+    if version >= 2 {
+        let e = match rng.below(4) { 0 | 1 => 0u64, 2 => now.saturating_add(1_000_000_000_000), _ => now.saturating_sub(rng.range(1, 3_000_000_000)) };
+        img[o + 22 + kl..o + 30 + kl].copy_from_slice(&e.to_le_bytes());
+    }
+    img[o + hdr + kl - 0] ^= 0x5A;
+    if version >= 3 { fx::stamp_seq_token(&mut img[o..o + BS], f as u64, version); }
+    // the old generation's tails
+    for t in h + 1..h + n {
+        let to = t * BS;
+        match rng.below(4) {
+            0 if !singles.is_empty() => {
+                let g = *rng.pick(&singles);
+                let mut blk = img[g * BS..g * BS + BS].to_vec();
+                let gkl = u16::from_le_bytes([blk[4], blk[5]]) as usize;
+                if gkl > 0 { blk[6] ^= 0x21; }   // a key nobody wrote
+                if version >= 3 { fx::stamp_seq_token(&mut blk, t as u64, version); }
+                img[to..to + BS].copy_from_slice(&blk);
+            }
+            1 => {
+                let mut m = vec![0u8; BS];
+                fx::fill_retirement_markers(&mut m, t as u64, (rng.range(1, 4) as usize).min(blocks - t));
+                img[to..to + BS].copy_from_slice(&m);
+            }
+            2 => { img[to..to + BS].copy_from_slice(&head); }
+            _ => {}
+        }
+    }
+    if version >= 3 { fx::stamp_seq_token(&mut img[h * BS..(h + n) * BS], h as u64, version); }
+    true
+}
+
 fn mutate_image(rng: &mut Rng, img: &mut Vec<u8>, version: u32) -> &'static str {
     let blocks = img.len() / BS;
     let data_blocks: Vec<usize> = (16..blocks).filter(|b| !all_zero(&img[b * BS..b * BS + 64])).collect();
     let pick_block = |rng: &mut Rng| -> usize {
         if !data_blocks.is_empty() && rng.chance(4, 5) { *rng.pick(&data_blocks) } else { rng.range(16, blocks as u64 - 1) as usize }
     };
-    match rng.below(12) {
+    match rng.below(13) {
         0 => { let i = rng.below(img.len() as u64) as usize; img[i] ^= 1 << rng.below(8); "bitflip-any" }
         1 => { let b = pick_block(rng); let i = b * BS + rng.below(40) as usize; img[i] ^= 1 << rng.below(8); "bitflip-head" }
         2 => { let a = pick_block(rng); let b = pick_block(rng); for i in 0..BS { img.swap(a * BS + i, b * BS + i); } "block-swap" }
@@ -753,6 +829,33 @@ fn mutate_image(rng: &mut Rng, img: &mut Vec<u8>, version: u32) -> &'static str 
             "extent-truncate"
         }
         10 => { let b = pick_block(rng); let r = rng.bytes(BS); img[b * BS..b * BS + BS].copy_from_slice(&r); "block-random" }
+        11 => {
+            // a well-formed ACTIVE journal over blocks that hold data, on a file whose metadata copies are BOTH
+            // unacceptable: the open has to be refused before the journal is looked at, let alone replayed
+            let slot = rng.below(2) as usize;
+            let off = (1 + slot * 3) * BS;
+            let mut es: Vec<(u64, usize)> = vec![];
+            for _ in 0..rng.range(1, 3) {
+                let b = pick_block(rng);
+                let n = (rng.range(1, 4) as usize).min(blocks - b);
+                if es.iter().all(|(s, l)| b as u64 + n as u64 <= *s || *s + *l as u64 <= b as u64) { es.push((b as u64, n)); }
+            }
+            if let Ok(j) = fx::journal_encode_active(rng.range(60, 90), &es) {
+                let l = j.len().min(3 * BS);
+                for x in &mut img[off..off + 3 * BS] { *x = 0; }
+                img[off..off + l].copy_from_slice(&j[..l]);
+            }
+            let how = rng.below(3);
+            for which in [0usize, 7] {
+                let o = which * BS;
+                match how {
+                    0 => { for x in &mut img[o..o + BS] { *x = 0; } }
+                    1 => { img[o] = b'Z'; }
+                    _ => { let i = o + 16 + rng.below(100) as usize; img[i] ^= 0x10; }
+                }
+            }
+            "bad-metadata-active-journal"
+        }
         _ => { let n = rng.range(1, 4); for _ in 0..n { let i = rng.below(img.len() as u64) as usize; img[i] = rng.next() as u8; } "bytes-random" }
     }
 }
@@ -1096,6 +1199,10 @@ fn sec_recover(s: &mut Sink, rng: &mut Rng, workloads: usize, mutations: usize) 
             let mut img = pristine.clone();
             let mut kinds = vec![];
             if rng.chance(1, 4) || DUPGEN_ONLY.load(std::sync::atomic::Ordering::Relaxed) {
+                if rng.chance(1, 3) && dup_generation_below_multi(rng, &mut img, version, later) {
+                    kinds.push("dup-generation");
+                    *s.hist.entry("dup-generation-multiblock-loser-above".into()).or_insert(0) += 1;
+                }
                 if dup_generation(rng, &mut img, version, later) { kinds.push("dup-generation"); }
                 if rng.chance(1, 3) && dup_generation(rng, &mut img, version, later) { kinds.push("dup-generation"); }
             }
@@ -1342,6 +1449,39 @@ fn sec_migrate(s: &mut Sink, rng: &mut Rng, workloads: usize, oracle: &mut Vec<S
                 Ok(Ok(rep)) => {
                     if pre_existing {
                         oracle.push(format!("migrate {}: overwrote an existing destination", src));
+                    }
+                    // faithful copy, judged without the model: an ordinary (read-write, TTL off) recovery of a COPY of the
+                    // source and an ordinary open of a copy of the destination expose the same keys, values, timestamps, expiries
+                    {
+                        let sc = format!("{}/mig{}_srccopy.feox", s.dir, w);
+                        let dc = format!("{}/mig{}_dstcopy.feox", s.dir, w);
+                        std::fs::write(&sc, &img).unwrap();
+                        let _ = std::fs::copy(&dst, &dc);
+                        let open_r = |p: &str| catch_unwind(AssertUnwindSafe(|| FeoxStore::builder().device_path(p.to_string()).hash_bits(6).enable_caching(false).enable_ttl(false)
+                            .allow_ambiguous_legacy_recovery(amb).build().map(|st| { let c = contents(&st); drop(st); c }).map_err(|e| err_name(&e).to_string())));
+                        let (ra, rb) = (open_r(&sc), open_r(&dc));
+                        if let Ok(Err(e)) = &ra {
+                            // a source that an ordinary open refuses cannot have been copied faithfully
+                            let keep = format!("{}/mig{}_src.image", s.dir, w);
+                            std::fs::write(&keep, &img).unwrap();
+                            oracle.push(format!("migrate {} (amb={}): migrate() = Ok ({} records) although an ordinary recovery of a copy of the source fails with {}", keep, amb as u8, rep.records, e));
+                        }
+                        if let Ok(Err(e)) = &rb {
+                            oracle.push(format!("migrate {} (amb={}): migrate() = Ok but the destination does not open ({})", src, amb as u8, e));
+                        }
+                        if let (Ok(Ok(a)), Ok(Ok(b))) = (ra, rb) {
+                            *s.hist.entry("migrate-oracle-compared".into()).or_insert(0) += 1;
+                            if a != b {
+                                let only_src: Vec<&String> = a.iter().filter(|x| !b.contains(x)).take(3).collect();
+                                let only_dst: Vec<&String> = b.iter().filter(|x| !a.contains(x)).take(3).collect();
+                                let keep = format!("{}/mig{}_src.image", s.dir, w);
+                                std::fs::write(&keep, &img).unwrap();
+                                oracle.push(format!("migrate {} (amb={}): migrate() = Ok ({} records) but the destination is not a faithful copy: a recovery of the source holds {} keys, the destination {}; only in the source: {:?}; only in the destination: {:?}",
+                                    keep, amb as u8, rep.records, a.len(), b.len(), only_src, only_dst));
+                            }
+                        }
+                        let _ = std::fs::remove_file(&sc);
+                        let _ = std::fs::remove_file(&dc);
                     }
                     format!("ok records={} v={} dsize={} amb={} srcio=0 same=1 dv={} dsz={}", rep.records, rep.source_version,
                         rep.destination_size, rep.ambiguous_legacy_markers, rep.destination_version, std::fs::metadata(&dst).map(|m| m.len()).unwrap_or(0))
